@@ -277,36 +277,49 @@ Qed.
 
 (* one step: no tie is lost to another key, at most one new tie (qn, kn) appears, and it is either an existing tie or
    uses the never-used identity *)
+(* what one step does to the ties: none appears except with the never-used identity, live afterwards *)
+Definition step_sum (t t' : tstate) : Prop :=
+  forall q b, tied t' q b -> tied t q b \/ (q = next_qid (tcm t) /\ live (tcm t') q b).
+
 Lemma ginv_extend t t' qn kn :
   GInv t -> cm_inv (tcm t') -> length (theld t') = length (tcar t') ->
   (forall q b, tied t' q b -> tied t q b \/ (q = qn /\ b = kn)) ->
   ((tied t qn kn /\ next_qid (tcm t') = next_qid (tcm t)) \/
    (qn = next_qid (tcm t) /\ next_qid (tcm t') = S (next_qid (tcm t)))) ->
   (forall i k q, nth_error (tcar t') i = Some k -> pre_open k -> nth_error (theld t') i <> Some (Some q)) ->
-  GInv t'.
+  live (tcm t') qn kn ->
+  GInv t' /\ step_sum t t'.
 Proof.
-  intros [Gc Gl Glt Gown Gpre] Hc Hl Hsub Hnew Hpre. constructor; try assumption.
-  - intros q b H. destruct (Hsub q b H) as [H0|[-> ->]].
-    + specialize (Glt q b H0). destruct Hnew as [[_ ->]|[_ ->]]; lia.
-    + destruct Hnew as [[H0 ->]|[-> ->]]; [apply (Glt _ _ H0) | lia].
-  - intros q b b' H H'. pose proof (Hsub q b H) as A. pose proof (Hsub q b' H') as B.
-    destruct A as [H0|[E1 E2]], B as [H0'|[E1' E2']].
-    + apply (Gown q b b' H0 H0').
-    + subst q b'. destruct Hnew as [[Hn _]|[-> _]]; [apply (Gown qn b kn H0 Hn)|]. specialize (Glt _ _ H0). lia.
-    + subst q b. destruct Hnew as [[Hn _]|[-> _]]; [apply (Gown qn kn b' Hn H0')|]. specialize (Glt _ _ H0'). lia.
-    + congruence.
+  intros [Gc Gl Glt Gown Gpre] Hc Hl Hsub Hnew Hpre Hlive. split.
+  - constructor; try assumption.
+    + intros q b H. destruct (Hsub q b H) as [H0|[-> ->]].
+      * specialize (Glt q b H0). destruct Hnew as [[_ ->]|[_ ->]]; lia.
+      * destruct Hnew as [[H0 ->]|[-> ->]]; [apply (Glt _ _ H0) | lia].
+    + intros q b b' H H'. pose proof (Hsub q b H) as A. pose proof (Hsub q b' H') as B.
+      destruct A as [H0|[E1 E2]], B as [H0'|[E1' E2']].
+      * apply (Gown q b b' H0 H0').
+      * subst q b'. destruct Hnew as [[Hn _]|[-> _]]; [apply (Gown qn b kn H0 Hn)|]. specialize (Glt _ _ H0). lia.
+      * subst q b. destruct Hnew as [[Hn _]|[-> _]]; [apply (Gown qn kn b' Hn H0')|]. specialize (Glt _ _ H0'). lia.
+      * congruence.
+  - intros q b H. destruct (Hsub q b H) as [H0|[-> ->]]; [left; exact H0|].
+    destruct Hnew as [[Hn _]|[E _]]; [left; exact Hn | right; split; [exact E | exact Hlive]].
 Qed.
 
 Lemma ginv_subset t t' :
   GInv t -> cm_inv (tcm t') -> length (theld t') = length (tcar t') ->
   (forall q b, tied t' q b -> tied t q b) -> next_qid (tcm t') = next_qid (tcm t) ->
   (forall i k q, nth_error (tcar t') i = Some k -> pre_open k -> nth_error (theld t') i <> Some (Some q)) ->
-  GInv t'.
+  GInv t' /\ step_sum t t'.
 Proof.
-  intros [Gc Gl Glt Gown Gpre] Hc Hl Hsub Hn Hpre. constructor; try assumption.
-  - intros q b H. rewrite Hn. apply (Glt q b (Hsub q b H)).
-  - intros q b b' H H'. apply (Gown q b b' (Hsub _ _ H) (Hsub _ _ H')).
+  intros [Gc Gl Glt Gown Gpre] Hc Hl Hsub Hn Hpre. split.
+  - constructor; try assumption.
+    + intros q b H. rewrite Hn. apply (Glt q b (Hsub q b H)).
+    + intros q b b' H H'. apply (Gown q b b' (Hsub _ _ H) (Hsub _ _ H')).
+  - intros q b H. left. apply Hsub. exact H.
 Qed.
+
+Lemma both_same t : GInv t -> GInv t /\ step_sum t t.
+Proof. intros G. split; [exact G | intros q b H; left; exact H]. Qed.
 
 Lemma set_nth_get {A} (l : list A) i j x y : nth_error (set_nth i x l) j = Some y ->
   (j = i /\ y = x) \/ (j <> i /\ nth_error l j = Some y) \/ (j = i /\ nth_error l j = None).
@@ -354,7 +367,7 @@ Section Steps.
   Lemma entered_not_pre k : entered k = true -> ~ pre_open k.
   Proof. unfold entered, pre_open. destruct (k_state k); intros H [E|E]; discriminate. Qed.
 
-  Theorem tstep_ginv t o : GInv t -> GInv (tstep timeout t o).
+  Theorem tstep_both t o : GInv t -> GInv (tstep timeout t o) /\ step_sum t (tstep timeout t o).
   Proof.
     intros G. pose proof G as [Gc Gl Glt Gown Gpre]. destruct o.
     - (* new *) apply (ginv_subset t); cbn [tstep tcm tcar theld]; try assumption; try reflexivity.
@@ -367,8 +380,8 @@ Section Steps.
         destruct (nth_app_new _ _ _ _ Hh) as [Ho|[_ Hx]]; [|discriminate].
         assert (Hlt : (i < length (tcar t))%nat) by (rewrite <- Gl; apply nth_error_Some; congruence).
         rewrite nth_error_app1 in Hk by exact Hlt. apply (Gpre i k q Hk Hpre Ho).
-    - (* recv *) destruct (nth_error (tcar t) i) as [k|] eqn:Hk; [|cbn [tstep]; rewrite Hk; exact G].
-      destruct (k_state k) eqn:Es; [| | |cbn [tstep]; rewrite Hk, Es; exact G].
+    - (* recv *) destruct (nth_error (tcar t) i) as [k|] eqn:Hk; [|cbn [tstep]; rewrite Hk; apply both_same; exact G].
+      destruct (k_state k) eqn:Es; [| | |cbn [tstep]; rewrite Hk, Es; apply both_same; exact G].
       all: assert (Hal : k_state k <> K_Dead) by congruence;
            destruct (trecv_view t i b now k Hk Hal) as (V1 & V2 & V3 & V4 & V5); cbn zeta in *;
            destruct (pump_spec (S (S (S (length (k_buf k) + length b)))) (with_buf (k_buf k ++ b) k)) as [k' [ps [Hp Hok]]];
@@ -399,7 +412,8 @@ Section Steps.
             | intros j kj q Hj Hpre Hh; rewrite V1 in Hj; rewrite V2 in Hh;
               destruct (knth_upd_inv _ _ _ _ _ Hj) as [[<- [x [Hx ->]]]|[Hne Hj']];
               [ apply (entered_not_pre _ Est2 Hpre)
-              | rewrite set_nth_neq in Hh by congruence; apply (Gpre j kj q Hj' Hpre Hh) ] ]).
+              | rewrite set_nth_neq in Hh by congruence; apply (Gpre j kj q Hj' Hpre Hh) ]
+            | rewrite V3; apply L3; right; split; reflexivity ]).
       (* not started *)
       all: (apply (ginv_subset t t' G);
             [ rewrite V3; exact Gc
@@ -444,10 +458,11 @@ Section Steps.
         * left. right. right. left. exists j, kj. repeat split; assumption.
         * apply S4 in H. apply L3 in H. destruct H as [H|H]; [left; right; right; right; exact H | right; exact H].
       + rewrite S2. destruct L4 as [[La Lb]|[La [_ Lb]]]; [left; split; [right; right; right; exact La | exact Lb] | right; split; assumption].
+      + apply S4. apply L3. right. split; reflexivity.
     - (* send *) cbn [tstep].
-      destruct (nth_error (tcar t) i) as [k|] eqn:Hk; [|exact G].
-      destruct (nth_error (theld t) i) as [[q|]|] eqn:Hh; try exact G.
-      destruct (k_state k) eqn:Es; try exact G.
+      destruct (nth_error (tcar t) i) as [k|] eqn:Hk; [|apply both_same; exact G].
+      destruct (nth_error (theld t) i) as [[q|]|] eqn:Hh; try (apply both_same; exact G).
+      destruct (k_state k) eqn:Es; try (apply both_same; exact G).
       destruct (live_q_recv q (tcm t) Gc) as (R1 & R2 & R3).
       destruct (q_recv q (tcm t)) as [c1 r] eqn:Eqr. cbn [fst snd] in *.
       assert (Htq : tied t q (key_of k)) by (right; right; left; exists i, k; repeat split; assumption).
@@ -472,6 +487,7 @@ Section Steps.
           -- intros j kj q0 Hj Hpre Hhj. destruct (knth_upd_inv _ _ _ _ _ Hj) as [[<- [x [Hx ->]]]|[Hne Hj']].
              ++ unfold pre_open in Hpre. cbn in Hpre. destruct Hpre; discriminate.
              ++ rewrite set_nth_neq in Hhj by congruence. apply (Gpre j kj q0 Hj' Hpre Hhj).
+          -- apply L3. right. split; reflexivity.
         * apply (ginv_subset t); cbn [tcm tcar theld tacc tcons]; try assumption.
           -- rewrite kupd_length. exact Gl.
           -- intros q0 b [[p0 H]|[[o [p0 H]]|[[j [kj [Hj [Hhj Hkey]]]]|H]]]; cbn [tacc tcons tcar theld tcm] in *.
@@ -484,7 +500,7 @@ Section Steps.
           -- intros j kj q0 Hj Hpre Hhj. destruct (knth_upd_inv _ _ _ _ _ Hj) as [[<- [x [Hx ->]]]|[Hne Hj']].
              ++ unfold pre_open in Hpre. cbn in Hpre. destruct Hpre; discriminate.
              ++ apply (Gpre j kj q0 Hj' Hpre Hhj).
-      + exact G.
+      + apply both_same; exact G.
       + apply (ginv_subset t); cbn [tcm tcar theld tacc tcons]; try assumption.
         * rewrite kupd_length. exact Gl.
         * intros q0 b [[p0 H]|[[o [p0 H]]|[[j [kj [Hj [Hhj Hkey]]]]|H]]]; cbn [tacc tcons tcar theld tcm] in *.
@@ -496,13 +512,16 @@ Section Steps.
         * intros j kj q0 Hj Hpre Hhj. destruct (knth_upd_inv _ _ _ _ _ Hj) as [[<- [x [Hx ->]]]|[Hne Hj']].
           -- unfold pre_open in Hpre. cbn in Hpre. destruct Hpre; discriminate.
           -- apply (Gpre j kj q0 Hj' Hpre Hhj).
-    - (* readfrom *) cbn [tstep]. destruct (trecvq t); [exact G|].
+    - (* readfrom *) cbn [tstep]. destruct (trecvq t); [apply both_same; exact G|].
       apply (ginv_subset t); cbn [tcm tcar theld]; try assumption; try reflexivity. intros q b H. exact H.
     - (* sweep *) cbn [tstep]. destruct (sweep_rec now timeout (tcm t) Gc) as (W1 & W2 & W3 & W4 & W5). cbn zeta in *.
       apply (ginv_subset t); cbn [tcm tcar theld tacc tcons]; try assumption.
       intros q b [H|[H|[H|[r [Hr Hq]]]]]; [left; exact H | right; left; exact H | right; right; left; exact H|].
       right. right. right. exists r. split; [apply (W4 b r Hr) | exact Hq].
   Qed.
+
+  Theorem tstep_ginv t o : GInv t -> GInv (tstep timeout t o).
+  Proof. intros G. apply (tstep_both t o G). Qed.
 
   Theorem trun_ginv : forall ops, GInv (trun timeout ops).
   Proof.
@@ -511,3 +530,190 @@ Section Steps.
     apply H. apply ginv_init.
   Qed.
 End Steps.
+
+(* ================================================================ (3) a session within the retention: one queue, no loss *)
+
+Definition acc_key (a : N) (l : list (N * nat * bytes)) : list bytes :=
+  map snd (filter (fun x => N.eqb (fst (fst x)) a) l).
+Definition cons_key (a : N) (l : list (option nat * N * nat * bytes)) : list bytes :=
+  map snd (filter (fun x => N.eqb (snd (fst (fst x))) a) l).
+
+Lemma acc_key_snoc a l b q p : acc_key a (l ++ [(b, q, p)]) = acc_key a l ++ (if N.eqb b a then [p] else []).
+Proof. unfold acc_key. rewrite filter_app, map_app. cbn. destruct (N.eqb b a); reflexivity. Qed.
+Lemma cons_key_snoc a l o b q p : cons_key a (l ++ [(o, b, q, p)]) = cons_key a l ++ (if N.eqb b a then [p] else []).
+Proof. unfold cons_key. rewrite filter_app, map_app. cbn. destruct (N.eqb b a); reflexivity. Qed.
+
+Lemma out_q_send_queue a' now c a : cm_inv c -> out_q (fst (send_queue a' now c)) a = out_q c a.
+Proof.
+  intros Hinv. pose proof (send_queue_out_aux a' now c Hinv) as (_ & (r & Hr & _ & _ & Hq) & Hoth & _).
+  destruct (N.eq_dec a a') as [->|Hne].
+  - unfold out_q at 1. rewrite Hr. exact Hq.
+  - unfold out_q. rewrite (Hoth a Hne). reflexivity.
+Qed.
+
+Lemma out_q_recv_other q c a : cm_inv c -> (forall r, rec_of c a = Some r -> c_qid r <> q) ->
+  out_q (fst (q_recv q c)) a = out_q c a.
+Proof. intros Hinv H. destruct (q_recv_rec q c Hinv) as (_ & _ & Hoth & _). unfold out_q. rewrite (Hoth a H). reflexivity. Qed.
+
+Section Key.
+  Variable timeout : Z.
+  Variable a : N.     (* the session's key *)
+
+  (* the sweep [o] finds the session's record idle for the timeout *)
+  Definition stale (t : tstate) (o : top) : Prop :=
+    match o with
+    | T_Sweep now => exists r, rec_of (tcm t) a = Some r /\ expired now timeout r = true
+    | _ => False
+    end.
+
+  Fixpoint fresh_from (t : tstate) (ops : list top) : Prop :=
+    match ops with
+    | [] => True
+    | o :: r => ~ stale t o /\ fresh_from (tstep timeout t o) r
+    end.
+
+  Record KInv (t : tstate) : Prop := {
+    k_one : forall q, tied t q a -> live (tcm t) q a;
+    k_fifo : acc_key a (tacc t) = cons_key a (tcons t) ++ out_q (tcm t) a
+  }.
+
+  Lemma kinv_init : KInv tinit.
+  Proof.
+    constructor.
+    - intros q [[p []]|[[o [p []]]|[[i [k [H _]]]|[r [H _]]]]]; [destruct i|]; discriminate.
+    - reflexivity.
+  Qed.
+
+  Lemma live_forward t o q b : GInv t -> live (tcm t) q b ->
+    (forall now r, o = T_Sweep now -> rec_of (tcm t) b = Some r -> expired now timeout r = false) ->
+    live (tcm (tstep timeout t o)) q b.
+  Proof.
+    intros G H Hf. pose proof G as [Gc Gl Glt Gown Gpre]. destruct o.
+    - exact H.
+    - destruct (nth_error (tcar t) i) as [k|] eqn:Hk; [|cbn [tstep]; rewrite Hk; exact H].
+      destruct (k_state k) eqn:Es; [| | |cbn [tstep]; rewrite Hk, Es; exact H].
+      all: assert (Hal : k_state k <> K_Dead) by congruence;
+           destruct (trecv_view timeout t i b0 now k Hk Hal) as (_ & _ & V3 & _ & _); cbn zeta in V3; rewrite V3;
+           match goal with |- context [if ?c then _ else _] => destruct c end; try exact H;
+           match goal with |- live (fst (send_queue ?kk _ _)) _ _ =>
+             destruct (live_send_queue kk now (tcm t) Gc) as (_ & _ & L3 & _); apply L3; left; exact H end.
+    - exact H.
+    - cbn [tstep]. destruct (live_send_queue (cid_key cid) now (tcm t) Gc) as (L1 & _ & L3 & _). cbn zeta in *.
+      destruct (send_queue (cid_key cid) now (tcm t)) as [c1 q0]. cbn [fst snd] in *.
+      destruct (live_q_send QUEUE_SIZE q0 p c1 L1) as (_ & _ & _ & S4).
+      destruct (q_send QUEUE_SIZE q0 p c1) as [c2 ok]. cbn [fst tcm] in *. apply S4. apply L3. left. exact H.
+    - cbn [tstep]. destruct (nth_error (tcar t) i) as [k|]; [|exact H].
+      destruct (nth_error (theld t) i) as [[q0|]|]; try exact H. destruct (k_state k); try exact H.
+      destruct (live_q_recv q0 (tcm t) Gc) as (R1 & _ & R3). destruct (q_recv q0 (tcm t)) as [c1 r]. cbn [fst] in *.
+      destruct r as [p| |]; [|exact H | cbn [tcm]; apply R3; exact H].
+      destruct (write_data p); [|cbn [tcm]; apply R3; exact H].
+      destruct (live_send_queue (cid_key (k_cid k)) now c1 R1) as (_ & _ & L3 & _). cbn zeta in *.
+      destruct (send_queue (cid_key (k_cid k)) now c1) as [c2 q']. cbn [fst tcm] in *. apply L3. left. apply R3. exact H.
+    - cbn [tstep]. destruct (trecvq t); exact H.
+    - cbn [tstep tcm]. destruct (sweep_rec now timeout (tcm t) Gc) as (_ & _ & W3 & _). cbn zeta in W3.
+      destruct H as [r [Hr Hq]]. exists r. split; [|exact Hq]. apply W3; [exact Hr|]. apply (Hf now r eq_refl Hr).
+  Qed.
+
+  Lemma not_stale_fresh t now : ~ stale t (T_Sweep now) ->
+    forall r, rec_of (tcm t) a = Some r -> expired now timeout r = false.
+  Proof.
+    intros Hns r Hr. destruct (expired now timeout r) eqn:E; [|reflexivity]. exfalso. apply Hns. exists r. split; assumption.
+  Qed.
+
+  Theorem tstep_kinv t o : GInv t -> KInv t -> ~ stale t o -> KInv (tstep timeout t o).
+  Proof.
+    intros G [K1 K2] Hns. pose proof G as [Gc Gl Glt Gown Gpre].
+    destruct (tstep_both timeout t o G) as [G' Hsum]. constructor.
+    - (* one incarnation *)
+      intros q Ht. destruct (Hsum q a Ht) as [H0|[_ Hl]]; [|exact Hl].
+      apply live_forward; [exact G | apply K1; exact H0|].
+      intros now r -> Hr. apply (not_stale_fresh t now Hns r Hr).
+    - (* nothing accepted is lost, order kept *)
+      destruct o.
+      + exact K2.
+      + destruct (nth_error (tcar t) i) as [k|] eqn:Hk; [|cbn [tstep]; rewrite Hk; exact K2].
+        destruct (k_state k) eqn:Es; [| | |cbn [tstep]; rewrite Hk, Es; exact K2].
+        all: assert (Hal : k_state k <> K_Dead) by congruence;
+             destruct (trecv_view timeout t i b now k Hk Hal) as (_ & _ & V3 & V4 & V5); cbn zeta in V3; rewrite V3, V4, V5;
+             match goal with |- context [if ?c then _ else _] => destruct c end; try exact K2;
+             rewrite out_q_send_queue by exact Gc; exact K2.
+      + exact K2.
+      + cbn [tstep]. pose proof (send_queue_rec (cid_key cid) now (tcm t) Gc) as (L1 & _ & Loth & _).
+        destruct (live_send_queue (cid_key cid) now (tcm t) Gc) as (_ & _ & _ & _ & (r & Hr & Hq & _ & Hcq)). cbn zeta in *.
+        pose proof (out_q_send_queue (cid_key cid) now (tcm t) a Gc) as Ho.
+        destruct (send_queue (cid_key cid) now (tcm t)) as [c1 q0]. cbn [fst snd] in *. subst q0.
+        pose proof (q_send_out QUEUE_SIZE p c1 (cid_key cid) r L1 Hr) as Hs.
+        destruct (q_send QUEUE_SIZE (c_qid r) p c1) as [c2 ok]. destruct Hs as (_ & Hok & _ & Hqa & Hqo).
+        cbn [tacc tcons tcm]. destruct (N.eqb_spec (cid_key cid) a) as [E|Ne].
+        * rewrite E in *. rewrite Hqa. rewrite Hcq in *. subst ok.
+          destruct (length (out_q (tcm t) a) <? QUEUE_SIZE)%nat.
+          -- rewrite acc_key_snoc, N.eqb_refl, K2, <- app_assoc. reflexivity.
+          -- exact K2.
+        * rewrite Hqo by congruence. rewrite Ho.
+          destruct ok; [|exact K2]. rewrite acc_key_snoc. destruct (N.eqb_spec (cid_key cid) a); [congruence|].
+          rewrite app_nil_r. exact K2.
+      + cbn [tstep]. destruct (nth_error (tcar t) i) as [k|] eqn:Hk; [|exact K2].
+        destruct (nth_error (theld t) i) as [[q|]|] eqn:Hh; try exact K2. destruct (k_state k) eqn:Es; try exact K2.
+        assert (Htq : tied t q (key_of k)) by (right; right; left; exists i, k; repeat split; assumption).
+        destruct (q_recv_rec q (tcm t) Gc) as (R1 & _ & Roth & Rsame).
+        destruct (N.eqb_spec (key_of k) a) as [E|Ne].
+        * (* a carrier of the session: it holds the session's one live queue *)
+          rewrite E in Htq. destruct (K1 q Htq) as [r [Hr Hq]].
+          destruct (Rsame a r Hr Hq) as (Ho & Hr' & _).
+          assert (Hout : out_q (tcm t) a = c_q r) by (unfold out_q; rewrite Hr; reflexivity).
+          destruct (q_recv q (tcm t)) as [c1 o]. cbn [fst snd] in *. subst o.
+          assert (Hout1 : out_q c1 a = tl (c_q r)) by (unfold out_q; rewrite Hr'; reflexivity).
+          destruct (c_q r) as [|p q'] eqn:Ecq; [exact K2|].
+          unfold key_of in E. destruct (write_data p) as [w|].
+          -- pose proof (out_q_send_queue (cid_key (k_cid k)) now c1 a R1) as Ho.
+             destruct (send_queue (cid_key (k_cid k)) now c1) as [c2 q2]. cbn [fst tacc tcons tcm] in *.
+             rewrite cons_key_snoc, E, N.eqb_refl, Ho, Hout1, K2, Hout, <- app_assoc. reflexivity.
+          -- cbn [tacc tcons tcm]. rewrite cons_key_snoc, E, N.eqb_refl, Hout1, K2, Hout, <- app_assoc. reflexivity.
+        * (* a carrier of another session never touches this session's queue *)
+          assert (Hnq : forall r, rec_of (tcm t) a = Some r -> c_qid r <> q).
+          { intros r Hr Hq. apply Ne. apply (Gown q (key_of k) a Htq). right. right. right. exists r. split; assumption. }
+          pose proof (out_q_recv_other q (tcm t) a Gc Hnq) as Ho1.
+          destruct (q_recv q (tcm t)) as [c1 o]. cbn [fst] in *. unfold key_of in Ne.
+          destruct o as [p| |]; [|exact K2 | cbn [tacc tcons tcm]; rewrite Ho1; exact K2].
+          destruct (write_data p) as [w|].
+          -- pose proof (out_q_send_queue (cid_key (k_cid k)) now c1 a R1) as Ho.
+             destruct (send_queue (cid_key (k_cid k)) now c1) as [c2 q2]. cbn [fst tacc tcons tcm] in *.
+             rewrite cons_key_snoc. destruct (N.eqb_spec (cid_key (k_cid k)) a); [congruence|].
+             rewrite app_nil_r, Ho, Ho1. exact K2.
+          -- cbn [tacc tcons tcm]. rewrite cons_key_snoc. destruct (N.eqb_spec (cid_key (k_cid k)) a); [congruence|].
+             rewrite app_nil_r, Ho1. exact K2.
+      + cbn [tstep]. destruct (trecvq t); exact K2.
+      + cbn [tstep tacc tcons tcm]. rewrite K2. f_equal.
+        destruct (sweep_rec now timeout (tcm t) Gc) as (_ & _ & W3 & W4 & _). cbn zeta in *.
+        unfold out_q. destruct (rec_of (tcm t) a) as [r|] eqn:Er.
+        * rewrite (W3 a r Er (not_stale_fresh t now Hns r Er)). reflexivity.
+        * destruct (rec_of (remove_expired now timeout (tcm t)) a) as [r'|] eqn:Er'; [|reflexivity].
+          destruct (W4 a r' Er') as [H _]. congruence.
+  Qed.
+
+  Theorem trun_kinv : forall ops, fresh_from tinit ops -> KInv (trun timeout ops).
+  Proof.
+    intros ops. unfold trun.
+    assert (H : forall t, GInv t -> KInv t -> fresh_from t ops -> KInv (fold_left (tstep timeout) ops t)).
+    { induction ops as [|o ops IH]; intros t G K Hf; cbn [fold_left]; [exact K|]. destruct Hf as [Hns Hf].
+      apply IH; [apply tstep_ginv; exact G | apply tstep_kinv; assumption | exact Hf]. }
+    apply H; [apply ginv_init | apply kinv_init].
+  Qed.
+
+  (* all the identities ever tied to the session are ONE identity *)
+  Corollary one_queue t q q' : GInv t -> KInv t -> tied t q a -> tied t q' a -> q = q'.
+  Proof.
+    intros G K H H'. destruct (k_one t K q H) as [r [Hr Hq]]. destruct (k_one t K q' H') as [r' [Hr' Hq']]. congruence.
+  Qed.
+
+  (* no carrier of the session is closed by an expiry: a receive on the queue it holds never reports "closed" *)
+  Corollary never_closed_under_carrier t i k q : GInv t -> KInv t ->
+    nth_error (tcar t) i = Some k -> nth_error (theld t) i = Some (Some q) -> key_of k = a ->
+    snd (q_recv q (tcm t)) <> RcvClosed.
+  Proof.
+    intros G K Hk Hh Hkey. pose proof (g_cm t G) as Gc.
+    assert (Ht : tied t q a) by (right; right; left; exists i, k; repeat split; assumption).
+    destruct (k_one t K q Ht) as [r [Hr Hq]]. destruct (q_recv_rec q (tcm t) Gc) as (_ & _ & _ & Rsame).
+    destruct (Rsame a r Hr Hq) as (Ho & _). rewrite Ho. destruct (c_q r); discriminate.
+  Qed.
+End Key.
